@@ -265,8 +265,15 @@ def parse_youtube_url(url, fix_common_mistakes=True):
     mlist_query = QUERY_LIST_RE.search(url)
     list_query = mlist_query.group(1) if mlist_query else None
 
+    # NOTE: like the other routes, the id must be a valid video id
     if m:
-        return YoutubeVideo(id=m.group(1), playlist=list_query)
+        v = m.group(1)
+
+        if fix_common_mistakes:
+            v = v[:11]
+
+        if is_youtube_video_id(v):
+            return YoutubeVideo(id=v, playlist=list_query)
 
     # Parsing
     parsed = safe_urlsplit(url)
